@@ -54,7 +54,7 @@ Proof.
 Qed.
 
 (* only UpAck creates a connection; every other step keeps every connection's key *)
-Lemma ck_step : forall s a s' e, step s a = Some (s', e) -> (forall d, a <> UpAck d) -> forall c, ck s' c = ck s c.
+Lemma ck_step : forall s a s' e, step s a = Some (s', e) -> (forall d p, a <> UpAck d p) -> forall c, ck s' c = ck s c.
 Proof.
   intros s a s' e H Hna c'. destruct a; try (exfalso; eapply Hna; reflexivity; fail); inv_step H;
     try reflexivity;
@@ -171,10 +171,10 @@ Ltac fin2 :=
 Lemma invd_step : forall s a s' e, Inv s -> InvD s -> step s a = Some (s', e) -> InvD s'.
 Proof.
   intros s a s' e HI HD H.
-  destruct (match a with UpAck _ => true | _ => false end) eqn:Ea.
+  destruct (match a with UpAck _ _ => true | _ => false end) eqn:Ea.
   - (* UpAck *) destruct a; try discriminate. clear Ea. inv_step H.
     assert (Hck : forall c, ck (set_pc (set_cn (set_dial s d (d_set d0 DReturned None)) d
-                 {| c_key := d_key d0; c_subs := []; c_closed := false; c_dead := None; c_timers := 0;
+                 {| c_key := d_key d0; c_proto := p; c_subs := []; c_closed := false; c_dead := None; c_timers := 0;
                     c_rl := RLRun; c_rm := false |}) (d_owner d0) (SBook d None)) c
                = if Nat.eqb c d then Some (d_key d0) else ck s c).
     { intros c. unfold ck; simpl. unfold upd. destruct (Nat.eqb_spec c d); reflexivity. }
@@ -189,7 +189,7 @@ Proof.
                let G := fresh "G" in let y := fresh "y" in
                pose proof (D4 _ HD j d) as G; rewrite H in G; simpl in G; destruct (G eq_refl) as (y & ? & ?); clear G
              end; spec_refl; fwd_same; fin2.
-  - assert (Hck : forall c, ck s' c = ck s c) by (eapply ck_step; eauto; intros d0 E; subst; discriminate).
+  - assert (Hck : forall c, ck s' c = ck s c) by (eapply ck_step; eauto; intros d0 p0 E; subst; discriminate).
     destruct a; try discriminate; clear Ea; inv_step H.
     all: destr_hyp_match; inj_all.
     all: try fwd_d HD; fwd_dials HD; dd HD; frames.
